@@ -20,7 +20,7 @@
     - at the end every note is closed (hence the last event is a NOTE_OFF).
 
     [canonical_noteperf nb ms md evs]: BOOLEAN; tuples (shift, pitch, velocity bin, duration) with
-    0 <= shift <= ms, 1 <= duration <= md, bin >= 1, nb >= 1, and pitches non-decreasing among
+    0 <= shift <= ms, 1 <= duration <= md, bin >= 1, nb >= 1 (for a non-empty list), and pitches non-decreasing among
     tuples that share a step (shift 0).
     No proofs here. *)
 From Coq Require Import ZArith List Bool.
@@ -106,14 +106,14 @@ Definition canonical_perf (nb ms : Z) (es : list pevent) : bool :=
   end.
 
 (** * canonical NotePerformance tuple lists *)
-Fixpoint np_canon_scan (ms md : Z) (evs : list np_event) (prev : option Z) : bool :=
+Fixpoint np_canon_scan (nb ms md : Z) (evs : list np_event) (prev : option Z) : bool :=
   match evs with
   | [] => true
   | (sh, q, b, du) :: r =>
-      (0 <=? sh) && (sh <=? ms) && (1 <=? du) && (du <=? md) && (1 <=? b)
+      (1 <=? nb) && (0 <=? sh) && (sh <=? ms) && (1 <=? du) && (du <=? md) && (1 <=? b)
       && (if sh =? 0 then match prev with Some pq => pq <=? q | None => true end else true)
-      && np_canon_scan ms md r (Some q)
+      && np_canon_scan nb ms md r (Some q)
   end.
 
 Definition canonical_noteperf (nb ms md : Z) (evs : list np_event) : bool :=
-  (1 <=? nb) && np_canon_scan ms md evs None.
+  np_canon_scan nb ms md evs None.
